@@ -71,15 +71,15 @@ class CtxDb:
         oi, od, ou = HeadMaintainer._insert_version, HeadMaintainer._delete_version, HeadMaintainer._update_version
 
         def ins(self_, v):
-            stmts.append(["ins", v])
+            stmts.append(["ins", str(v)])
             return oi(self_, v)
 
         def dele(self_, v):
-            stmts.append(["del", v])
+            stmts.append(["del", str(v)])
             return od(self_, v)
 
         def upd(self_, a, b):
-            stmts.append(["upd", a, b])
+            stmts.append(["upd", str(a), str(b)])
             return ou(self_, a, b)
 
         def fn(heads, ctx):
@@ -94,7 +94,7 @@ class CtxDb:
 
         def on_apply(ctx, step, heads, run_args):
             db = [x[0] for x in ctx.connection.execute(text("select version_num from %s" % self._qualified()))]
-            trace.append({"rows": db, "stmts": [list(s) for s in stmts], "heads": sorted(heads)})
+            trace.append({"rows": db, "stmts": [list(s) for s in stmts], "heads": sorted(str(h) for h in heads)})
             del stmts[:]
 
         opts = dict(self.opts, fn=fn, script=sd, on_version_apply=(on_apply,))
